@@ -210,12 +210,15 @@ func (f *fileData) save() error {
 // saveIfLinked writes this open file back to the store, unless its path was removed or renamed away since it was opened.
 // Like an unlinked os.File, the handle then keeps working on data that no longer has a name.
 func (f *file) saveIfLinked() error {
-	_, err := f.fs.getFileRecord(f.path)
+	current, err := f.fs.getFileRecord(f.path)
 	switch {
 	case errors.Is(err, hackpadfs.ErrNotExist):
 		return nil
 	case err != nil:
 		return err
+	case current.Mode().IsDir() != f.Mode().IsDir():
+		// the name belongs to something else by now, e.g. a directory made after this file was removed. Leave it alone
+		return nil
 	}
 	return f.save()
 }
